@@ -9,4 +9,5 @@ cd /verif
 HS_REPO="$d" VERIF_SEED=${VERIF_SEED:-1} ./check "$pid" --tier "$tier" 2>&1 | grep -v "UserWarning\|ps = Parallel" | tail -3
 cp /verif/replays/${pid}_${tier}_${VERIF_SEED:-1}.json "$d.replay.json" 2>/dev/null || true
 rm -rf "$d"
+/verif/tools/regen.sh >/dev/null 2>&1
 echo "replay copy: $d.replay.json"
